@@ -23,6 +23,12 @@
                                                      |  D-tie compares the call time of the watching stub) +
                                                      |  C01_pressure (events waiting => pressure set) +
                                                      |  closed-loop monitors raw-delayed / index-delayed
+   WHICH version is "that patch" when a cycle sends  | FULL: C07_apply_reports_last_write (apply() reports the version
+    several requests (main patch, touch-dummy)       |  of the LAST response whenever anything was sent, None only
+                                                     |  when nothing was), C07_apply_touch_reported; D_apply tie on
+                                                     |  the real application.apply(); in T_cycle the real apply()
+                                                     |  result feeds the real worker and p_patched is the last write
+                                                     |  observed at the fake API (C07_cycle_reports_its_last_write)
    a carried patch is applied first, no handlers     | FULL: C07_skip_when_pending_patch
    the worker outlives the deadline                  | FULL: C07_worker_outlives_deadline
    finaliser never released while inconsistent       | C07_release_never_inconsistent_partial / _refuted (objects
@@ -142,3 +148,26 @@ Theorem C07_interrupt_example : let g := mkG true false (Some 124) true true 100
   o_slept (gate g) = true /\ o_until (gate g) = 110 /\ o_go (gate g) = false.
 Proof. exact ex_interrupt. Qed.
 Print Assumptions C07_interrupt_example.
+
+(* --- what the processor reports as "the operator's last write": for every call of application.apply() (any patch,
+       any delays, sleep interrupted or not, any responses) it is the version in the LAST response of the requests the
+       call sent (main patch and/or touch-dummy patch), and None exactly when it sent nothing.  This is the hypothesis
+       `p_patched` of the barrier theorems, discharged for cycles whose result comes from apply(). --- *)
+Theorem C07_apply_reports_last_write : forall a, apply_rv a = last (apply_responses a) None.
+Proof. exact apply_reports_last_write. Qed.
+Print Assumptions C07_apply_reports_last_write.
+
+Theorem C07_apply_touch_reported : forall a, a_touches a = true -> apply_rv a = a_resp2 a.
+Proof. exact apply_touch_reported. Qed.
+Print Assumptions C07_apply_touch_reported.
+
+Theorem C07_cycle_reports_its_last_write : forall p a, cycle_writes p a ->
+  p_patched p = last (apply_responses a) None.
+Proof. exact cycle_reports_its_last_write. Qed.
+Print Assumptions C07_cycle_reports_its_last_write.
+
+Theorem C07_apply_touch_example :
+  let a := mkA false (Some 4) false None (Some "9"%string) in
+  a_sleeps a = Some 4 /\ a_touches a = true /\ apply_responses a = [Some "9"%string] /\ apply_rv a = Some "9"%string.
+Proof. exact ex_apply_touch. Qed.
+Print Assumptions C07_apply_touch_example.
